@@ -315,7 +315,7 @@ def _case_adaptive(rng, model):
     d = model.get("d") or rng.choice([1, 2])
     ops = []
     n = 1
-    single_ok = model["kind"] != "gp" or rng.random() < 0.4
+    single_ok = model["kind"] != "gp" or rng.random() < 0.7
     if rng.random() < 0.5:
         ops.append({"op": "iter", "b": True, "idx": [0]})
     refined = set()
@@ -347,7 +347,7 @@ def _case_adaptive(rng, model):
 
 def _case_real(rng, model):
     m, conf = model["m"], rng.choice(["rect", "rect", "ell"])
-    single_ok = model["kind"] != "gp" or rng.random() < 0.4
+    single_ok = model["kind"] != "gp" or rng.random() < 0.7
     n = rng.randint(1, 7) if single_ok else rng.randint(2, 7)
     if model["kind"] == "empirical":
         pts = [[float(np.round(rng.random(), 3)), float(i)] for i in range(n)]
@@ -375,6 +375,9 @@ def gen(ctx):
     rng = ctx.rng
     plan = ["stub-exact", "stub-geo", "stub-generic", "empirical", "gp-fixed", "gp-adaptive", "stub-adaptive",
             "stub-exact", "gp-fixed", "stub-geo"]
+    if ctx.worker == 0:
+        yield {"kind": "m1probe", "shape": "m1-probe", "m": 1, "conf": "rect", "model": {"kind": "stub"},
+               "points": [[0.0, 0.0], [1.0, 2.0]], "ops": []}
     for k in range(ctx.n(300, 10000)):
         shape = plan[k % len(plan)]
         if shape == "stub-exact":
@@ -469,6 +472,20 @@ def run_case(ctx, case):
     from vopy.design_space import AdaptivelyDiscretizedDesignSpace, FixedPointsDesignSpace
 
     ctx.count("shape_" + case["shape"])
+    if case["kind"] == "m1probe":
+        # information only (outside ASSUMPTIONS): a single objective makes np.diag(cov.squeeze()) raise
+        ds = FixedPointsDesignSpace(np.array(case["points"], dtype=float), 1)
+        stub = _Stub().make()
+        stub.points, stub.means, stub.covs = ds.points, np.array([[1.0], [2.0]]), np.array([[[4.0]], [[1.0]]])
+        try:
+            ds.update(stub, np.array(2.0), [1, 0])
+            ctx.count("m1_rect_update_ok_info")
+        except Exception as e:
+            ctx.count("m1_rect_update_raises_" + type(e).__name__ + "_info")
+            ctx.info("objective_dim=1: RectangularConfidenceRegion.update raises " + type(e).__name__ +
+                     " (np.diag of a 0-d array); not counted as a violation (m >= 2 assumed)")
+        ctx.case_done(case, False)
+        return
     m, conf, mk = case["m"], case["conf"], case["model"]["kind"]
     exact = bool(case.get("exact"))
     cmp_ = _Cmp(exact, Fraction(1, 10 ** 9) if mk == "gp" else Fraction(1, 10 ** 12))
